@@ -10,7 +10,7 @@ All theorems are about `HcipyVerif.Detector.run` / `pRun`, the model of
 factor, over an arbitrary field `K`; the model is tied to the code by the C17 correspondence
 (harness/props/c17.py).  In `run` images are values (lists of pixels); aliasing — arrays as heap cells, the caller
 overwriting buffers it passed in and images it got back — is the subject of the reference-level model `rStep`
-(section "reference level" below: bridge to `run`, `caller_arrays_untouched`, a `Bad` variant that does alias), which
+(section "reference level" below: bridge to `run`, `caller_arrays_untouched`; a variant that does alias is in `Lemmas/DetectorOld.lean`), which
 the driver runs next to every noiseless history and the harness compares with the real objects (contents of every
 array the caller holds after every operation, `np.shares_memory`).  The grid an image is labelled with is modelled by
 `tStep` (`image_grid_is_detector_grid`).
@@ -78,14 +78,14 @@ theorem next_readout_is_sum (g : Geom) (ops : List (Op K)) :
 theorem sumCharges_pixel (g : Geom) (l : List (List K × K × K)) (hv : Valid g l) (i : Nat)
     (hi : i < g.npix) :
     (sumCharges g l).getD i 0 =
-      (l.map fun x => (binND g.s g.dims x.1).getD i 0 * x.2.1 * x.2.2).sum := by
+      (l.map fun x => (binNDs g.ss g.dims x.1).getD i 0 * x.2.1 * x.2.2).sum := by
   induction l using List.rec with
   | nil => simp [sumCharges_nil, vzero, List.getD_eq_getElem?_getD, hi]
   | cons x l ih =>
     -- peel the *last* element instead: restate through the fold with a general start value
     have key : ∀ (l : List (List K × K × K)) (a : List K), a.length = g.npix → Valid g l →
-        (l.foldl (fun a (x : List K × K × K) => vadd a (charge (binND g.s g.dims x.1) x.2.1 x.2.2)) a).getD i 0
-          = a.getD i 0 + (l.map fun x => (binND g.s g.dims x.1).getD i 0 * x.2.1 * x.2.2).sum := by
+        (l.foldl (fun a (x : List K × K × K) => vadd a (charge (binNDs g.ss g.dims x.1) x.2.1 x.2.2)) a).getD i 0
+          = a.getD i 0 + (l.map fun x => (binNDs g.ss g.dims x.1).getD i 0 * x.2.1 * x.2.2).sum := by
       intro l
       induction l with
       | nil => intro a _ _; simp
@@ -96,9 +96,9 @@ theorem sumCharges_pixel (g : Geom) (l : List (List K × K × K)) (hv : Valid g 
         simp only [List.foldl_cons, List.map_cons, List.sum_cons]
         rw [ih' _ (by rw [vadd_length, ha, hc]; simp) (fun z hz => hv' z (by simp [hz])),
           vadd_getD _ _ _ (by omega) (by omega)]
-        have : (charge (binND g.s g.dims y.1) y.2.1 y.2.2).getD i 0
-            = (binND g.s g.dims y.1).getD i 0 * y.2.1 * y.2.2 := by
-          have hb : i < (binND g.s g.dims y.1).length := by rw [binND_length _ _ _ hy]; exact hi
+        have : (charge (binNDs g.ss g.dims y.1) y.2.1 y.2.2).getD i 0
+            = (binNDs g.ss g.dims y.1).getD i 0 * y.2.1 * y.2.2 := by
+          have hb : i < (binNDs g.ss g.dims y.1).length := by rw [binNDs_length _ _ g.hl _ hy]; exact hi
           simp [charge, List.getD_eq_getElem?_getD, List.getElem?_eq_getElem hb]
         rw [this]; ring
     have := key (x :: l) (vzero g.npix) (by simp [vzero]) hv
@@ -168,7 +168,7 @@ exposure.  (Which fine pixels `bin(p)[i]` adds up: `readout_pixel_index` below.)
 theorem readout_pixel (g : Geom) (ops : List (Op K)) (k : Nat) (e : List (List K × K × K))
     (he : (exposures g [] ops)[k]? = some e) (i : Nat) (hi : i < g.npix) :
     ∃ img, (images (run g ({} : St K) ops).2)[k]? = some img ∧
-      img.getD i 0 = (e.map fun x => (binND g.s g.dims x.1).getD i 0 * x.2.1 * x.2.2).sum := by
+      img.getD i 0 = (e.map fun x => (binNDs g.ss g.dims x.1).getD i 0 * x.2.1 * x.2.2).sum := by
   refine ⟨sumCharges g e, ?_, ?_⟩
   · rw [readout_is_sum, List.getElem?_map, he]; rfl
   · exact sumCharges_pixel g e
@@ -182,7 +182,7 @@ theorem readout_pixel_index (g : Geom) (ops : List (Op K)) (k : Nat) (e : List (
     (he : (exposures g [] ops)[k]? = some e) (c : List Nat) (hc : InBounds g.dims c) :
     ∃ img, (images (run g ({} : St K) ops).2)[k]? = some img ∧
       img.getD (flatIdx g.dims c) 0 = (e.map fun x =>
-        boxSums g.dims (g.dims.map fun _ => g.s) c (fun f => x.1.getD f 0) * x.2.1 * x.2.2).sum := by
+        boxSums g.dims g.ss c (fun f => x.1.getD f 0) * x.2.1 * x.2.2).sum := by
   obtain ⟨img, h1, h2⟩ := readout_pixel g ops k e he (flatIdx g.dims c) (flatIdx_lt g.dims c hc)
   refine ⟨img, h1, ?_⟩
   rw [h2]
@@ -190,22 +190,30 @@ theorem readout_pixel_index (g : Geom) (ops : List (Op K)) (k : Nat) (e : List (
   apply List.map_congr_left
   intro x hx
   have hv := exposures_valid g ops [] (by intro x hx; simp at hx) e (List.mem_of_getElem? he) x hx
-  rw [binND_getD g.s g.dims c hc x.1 hv]
+  rw [binNDs_getD g.dims g.ss c g.hl hc x.1 hv]
 
-example : WellSized ({ dims := [1, 2], s := 2 } : Geom)
+example : WellSized (Geom.uniform [1, 2] 2)
     ([.readOut, .integrate [1, 2, 3, 4, 5, 6, 7, 8] (1/2) 3, .readOut] : List (Op Rat)) := by decide
 
-/-- **Binning conserves counts** (`statistic='sum'`, any shape, any factor). -/
-theorem binning_conserves_counts (s : Nat) (dims : List Nat) (p : List K)
-    (h : p.length = fineSize s dims) : (binND s dims p).sum = p.sum :=
-  binND_sum s dims p h
+/-- **Binning conserves counts** (`statistic='sum'`, any shape, any per-axis factors): stated about the binning the
+detector model executes, `binNDs g.ss g.dims`. -/
+theorem binning_conserves_counts (g : Geom) (p : List K) (h : p.length = g.ninput) :
+    (binNDs g.ss g.dims p).sum = p.sum :=
+  binNDs_sum g.ss g.dims g.hl p h
+
+/-- one common factor `s` (`subsamping=<scalar>`) is the per-axis detector with `s` on every axis: its binning is
+`binND s`, its input grid has `fineSize s dims` samples -/
+theorem uniform_is_scalar_factor (dims : List Nat) (s : Nat) (p : List K) :
+    binNDs (Geom.uniform dims s).ss (Geom.uniform dims s).dims p = binND s dims p ∧
+      (Geom.uniform dims s).ninput = fineSize s dims :=
+  ⟨binNDs_replicate s dims p, fineSizes_replicate s dims⟩
 
 /-- total counts of a read-out = `Σ_j total(p_j)·dt_j·w_j`: nothing is lost or created by the
 sub-pixel binning or by the accumulation. -/
 theorem readout_total (g : Geom) (l : List (List K × K × K)) (hv : Valid g l) :
     (sumCharges g l).sum = (l.map fun x => x.1.sum * x.2.1 * x.2.2).sum := by
   have key : ∀ (l : List (List K × K × K)) (a : List K), a.length = g.npix → Valid g l →
-      (l.foldl (fun a (x : List K × K × K) => vadd a (charge (binND g.s g.dims x.1) x.2.1 x.2.2)) a).sum
+      (l.foldl (fun a (x : List K × K × K) => vadd a (charge (binNDs g.ss g.dims x.1) x.2.1 x.2.2)) a).sum
         = a.sum + (l.map fun x => x.1.sum * x.2.1 * x.2.2).sum := by
     intro l
     induction l with
@@ -217,8 +225,8 @@ theorem readout_total (g : Geom) (l : List (List K × K × K)) (hv : Valid g l) 
       simp only [List.foldl_cons, List.map_cons, List.sum_cons]
       rw [ih _ (by rw [vadd_length, ha, hc]; simp) (fun z hz => hv' z (by simp [hz])),
         vadd_sum _ _ (by rw [ha, hc])]
-      have : (charge (binND g.s g.dims y.1) y.2.1 y.2.2).sum = y.1.sum * y.2.1 * y.2.2 := by
-        rw [← binND_sum g.s g.dims y.1 hy]
+      have : (charge (binNDs g.ss g.dims y.1) y.2.1 y.2.2).sum = y.1.sum * y.2.1 * y.2.2 := by
+        rw [← binNDs_sum g.ss g.dims g.hl y.1 hy]
         simp only [charge]
         rw [show (fun x => x * y.2.1 * y.2.2) = (fun x => x * (y.2.1 * y.2.2)) from by funext x; ring,
           List.sum_map_mul_right]
@@ -355,10 +363,108 @@ theorem off_setters_eq_noiseless [DecidableEq K] (g : Geom) (ops : List (POp K))
 /-- the seeded-defect shape, concretely: scalar 0 (unit map) → explicit map → scalar 0 again: the
 last read-out is flagged "off" and equals the noiseless image -/
 example :
-    pReads ({ dims := [2], s := 1 } : Geom)
+    pReads (Geom.uniform [2] 1)
       ({ flat := [1, 1], dark := [0, 0], sigma := [0, 0] } : PSt Rat)
       [.setFlat [2, 3], .integrate [1, 1] 1 1, .readOut, .setFlat [1, 1], .integrate [1, 2] 1 1, .readOut]
       = [(false, .image [2, 3]), (true, .image [1, 2])] := by decide +kernel
+
+/-! ### noise sources on: the order of operations of `NoisyDetector.read_out` (`pReadOutRng`, driver op `readrng`) -/
+
+section
+variable [DecidableEq K]
+
+/-- **Read-out resets, noise or no noise**: whatever the draws, the state after a noisy read-out is the state after
+the deterministic one — accumulator empty — so nothing of one exposure's noise leaks into the next. -/
+theorem noisy_readout_resets (g : Geom) (pst : PSt K) (δ z : List K) :
+    (pReadOutRng g pst δ z).1 = (pStep g pst .readOut).1 ∧ (pReadOutRng g pst δ z).1.acc = none ∧
+      (pReadOutRng g pst δ z).1.lam g = vzero g.npix := by
+  refine ⟨?_, rfl, rfl⟩
+  rw [pStep_readOut_fst]; rfl
+
+/-- **Bridge to the deterministic read-out**: with photon noise off and zero read noise the draws do not matter:
+`pReadOutRng` is the read-out `pStep` performs (the op `read` of the driver). -/
+theorem noisy_readout_deterministic (g : Geom) (pst : PSt K) (δ z : List K)
+    (hdet : pst.deterministic g = true) (hz : z.length = g.npix)
+    (hl : (vmul (pst.lam g) pst.flat).length = g.npix) :
+    (pStep g pst .readOut).2 = .image (pReadOutRng g pst δ z).2 := by
+  simp only [PSt.deterministic, Bool.and_eq_true, Bool.not_eq_true', decide_eq_true_eq] at hdet
+  have hd2 : pst.deterministic g = true := by simp [PSt.deterministic, hdet.1, hdet.2]
+  simp only [pStep, hd2, if_true, pReadOutRng, noisyImage, hdet.1, hdet.2, Bool.false_eq_true, if_false]
+  rw [vmul_vzero_left _ _ hz, vadd_vzero_right _ _ hl]
+  rfl
+
+/-- **Every noise source at its neutral value: the pipeline is the identity** on the accumulated charge, whatever the
+draws. -/
+theorem noise_neutral_identity (g : Geom) (pst : PSt K) (δ z : List K) (hoff : ParamsOff g pst)
+    (hz : z.length = g.npix) (hl : (pst.lam g).length = g.npix) :
+    (pReadOutRng g pst δ z).2 = pst.lam g := by
+  simp only [pReadOutRng, noisyImage, hoff.photon, hoff.flat, hoff.sigma, Bool.false_eq_true, if_false]
+  rw [vmul_vzero_left _ _ hz, vmul_ones _ _ hl, vadd_vzero_right _ _ hl]
+
+/-- **What the photon-noise stage sees** (order of operations, first half): after the integrations `l` of an exposure
+the accumulated charge — the expectation handed to the Poisson draw — is `Σ_j bin(p_j)·dt_j·w_j + dark·Σ_j dt_j·w_j`:
+binned power *and* dark current, not yet multiplied by the flat field, no read noise. -/
+theorem noisy_charge_is_sum_plus_dark (g : Geom) (l : List (List K × K × K)) (hv : Valid g l) (pst : PSt K)
+    (h0 : pst.acc = none) (hd : pst.dark.length = g.npix) :
+    (pIntegrateAll g pst l).lam g = vadd (sumCharges g l) (pst.dark.map (· * darkTime l)) := by
+  have := (pIntegrateAll_rep g l hv pst [] (PRep.init g pst h0 hd)).lam
+  rw [(pIntegrateAll_params g l pst).2.1] at this
+  simpa using this
+
+/-- **Binning conserves counts before the noise**: the total charge handed to the photon-noise stage is
+`Σ_j total(p_j)·dt_j·w_j` plus the dark counts `Σ_i dark_i · Σ_j dt_j·w_j`. -/
+theorem noisy_charge_total (g : Geom) (l : List (List K × K × K)) (hv : Valid g l) (pst : PSt K)
+    (h0 : pst.acc = none) (hd : pst.dark.length = g.npix) :
+    ((pIntegrateAll g pst l).lam g).sum =
+      (l.map fun x => x.1.sum * x.2.1 * x.2.2).sum + pst.dark.sum * darkTime l := by
+  rw [noisy_charge_is_sum_plus_dark g l hv pst h0 hd,
+    vadd_sum _ _ (by rw [sumCharges_length g l hv]; simp [hd]), readout_total g l hv, List.sum_map_mul_right]
+  simp
+
+/-- **The noise pipeline, pixel by pixel** (order of operations, complete): an exposure `l` on an empty detector
+followed by a read-out whose draws came out as `δ` (Poisson deviation) and `z` (read-noise deviates) gives, in pixel
+`i`, `((Σ_j bin(p_j)[i]·dt_j·w_j + dark_i·Σ_j dt_j·w_j) + [photon noise] δ_i) · flat_i + σ_i·z_i`: the dark current is
+inside the Poisson expectation, the flat field multiplies charge and photon noise, the read noise is added last and
+is not multiplied by the flat field. -/
+theorem noisy_exposure_pixel (g : Geom) (l : List (List K × K × K)) (hv : Valid g l) (pst : PSt K)
+    (h0 : pst.acc = none) (hd : pst.dark.length = g.npix) (hf : pst.flat.length = g.npix)
+    (hs : pst.sigma.length = g.npix) (δ z : List K) (hδ : δ.length = g.npix) (hz : z.length = g.npix)
+    (i : Nat) (hi : i < g.npix) :
+    (pReadOutRng g (pIntegrateAll g pst l) δ z).2.getD i 0 =
+      (((l.map fun x => (binNDs g.ss g.dims x.1).getD i 0 * x.2.1 * x.2.2).sum + pst.dark.getD i 0 * darkTime l)
+        + (if pst.photon then δ.getD i 0 else 0)) * pst.flat.getD i 0 + pst.sigma.getD i 0 * z.getD i 0 := by
+  obtain ⟨e1, e2, e3, e4⟩ := pIntegrateAll_params g l pst
+  have hlam := noisy_charge_is_sum_plus_dark g l hv pst h0 hd
+  have hS := sumCharges_length g l hv
+  have hD : (pst.dark.map (· * darkTime l)).length = g.npix := by simp [hd]
+  have hL : ((pIntegrateAll g pst l).lam g).length = g.npix := by rw [hlam, vadd_length, hS, hD]; simp
+  have hlam_i : ((pIntegrateAll g pst l).lam g).getD i 0 =
+      (l.map fun x => (binNDs g.ss g.dims x.1).getD i 0 * x.2.1 * x.2.2).sum + pst.dark.getD i 0 * darkTime l := by
+    rw [hlam, vadd_getD _ _ _ (by omega) (by omega), sumCharges_pixel g l hv i hi]
+    congr 1
+    simp [List.getD_eq_getElem?_getD, List.getElem?_map, List.getElem?_eq_getElem (show i < pst.dark.length by omega)]
+  simp only [pReadOutRng, noisyImage, e1, e3, e4]
+  by_cases hph : pst.photon = true
+  · simp only [hph, if_true]
+    have h1 : (vadd ((pIntegrateAll g pst l).lam g) δ).length = g.npix := by rw [vadd_length, hL, hδ]; simp
+    rw [vadd_getD _ _ _ (by rw [vmul_length]; omega) (by rw [vmul_length]; omega),
+      vmul_getD _ _ _ (by omega) (by omega), vmul_getD _ _ _ (by omega) (by omega),
+      vadd_getD _ _ _ (by omega) (by omega), hlam_i]
+  · simp only [hph, Bool.false_eq_true, if_false, add_zero]
+    rw [vadd_getD _ _ _ (by rw [vmul_length]; omega) (by rw [vmul_length]; omega),
+      vmul_getD _ _ _ (by omega) (by omega), vmul_getD _ _ _ (by omega) (by omega), hlam_i]
+
+/-- the hypotheses of the noise theorems are satisfiable, and the formula on a concrete exposure: per-axis factors
+`[1, 2]`, dark current ½, flat field `[2, 3]`, read noise `[1, ½]`, photon noise on -/
+example :
+    let g : Geom := { dims := [1, 2], ss := [1, 2] }
+    let pst : PSt Rat := { flat := [2, 3], dark := [1/2, 1/2], sigma := [1, 1/2], photon := true }
+    Valid g [([1, 2, 3, 4], (1 : Rat), (2 : Rat))] ∧ pst.acc = none ∧ pst.dark.length = g.npix ∧
+      (pIntegrateAll g pst [([1, 2, 3, 4], 1, 2)]).lam g = [7, 15] ∧
+      (pReadOutRng g (pIntegrateAll g pst [([1, 2, 3, 4], 1, 2)]) [1, -1] [2, 4]).2 = [18, 44] := by
+  refine ⟨by intro x hx; simp at hx; subst hx; decide +kernel, rfl, by decide +kernel, by decide +kernel, by decide +kernel⟩
+
+end
 
 /-! ### the grid an image is labelled with -/
 
@@ -380,13 +486,6 @@ theorem image_grid_is_detector_grid (ops : List TOp) (st : TSt)
       rintro t (rfl | ht)
       · rcases h with h | h <;> simp [h]
       · exact ih _ (Or.inl rfl) t ht
-
-/-- Old (D170, documentation): on the unrepaired subsampling-1 path a Field on a foreign grid makes the image live
-on that foreign grid — the label model can express the defect -/
-theorem Old_image_on_foreign_grid :
-    tRunWith relabelOld {} [.integrate .onForeign, .integrate .onInput, .readOut, .readOut] = [.foreign, .detector] ∧
-    tRunWith relabel {} [.integrate .onForeign, .integrate .onInput, .readOut, .readOut] = [.detector, .detector] := by
-  decide
 
 /-! ### reference level: aliasing
 
@@ -457,52 +556,33 @@ theorem ref_readout_is_sum (g : Geom) (ops : List (ROp K)) :
   rw [ref_images_eq_value_images g ops {} RInv.init]
   exact readout_is_sum g _
 
-/-- **Bad** (in-place accumulation into the caller's buffer, read-out without copy): the array the caller passed
-in changes without the caller writing to it, and the image handed out *is* that array — on the same history the
-model of the real code leaves the buffer alone and hands out a new array.  (`caller_arrays_untouched` is
-therefore not true of every step function.) -/
-theorem Bad_detector_aliases :
-    let g : Geom := { dims := [2], s := 1 }
-    let ops : List (ROp Rat) := [.alloc [1, 2], .integrate 0 2 1, .readOut]
-    (rRunBad g {} ops).1.at 0 = [2, 4] ∧ (rRunBad g {} ops).2 = [.ref 0, .done, .ref 0] ∧
-    (rRun g {} ops).1.at 0 = [1, 2] ∧ (rRun g {} ops).2 = [.ref 0, .done, .ref 2] := by
-  decide +kernel
-
 /-- the hypotheses of `caller_arrays_untouched` are satisfiable, and a write to another array is allowed -/
-example : RInv (rRun ({ dims := [2], s := 1 } : Geom) ({} : RSt Rat) [.alloc [1, 2], .integrate 0 2 1]).1 ∧
-    (0 : Nat) ∈ (rRun ({ dims := [2], s := 1 } : Geom) ({} : RSt Rat) [.alloc [1, 2], .integrate 0 2 1]).1.known :=
+example : RInv (rRun (Geom.uniform [2] 1) ({} : RSt Rat) [.alloc [1, 2], .integrate 0 2 1]).1 ∧
+    (0 : Nat) ∈ (rRun (Geom.uniform [2] 1) ({} : RSt Rat) [.alloc [1, 2], .integrate 0 2 1]).1.known :=
   ⟨by
     have h0 : RInv ({} : RSt Rat) := RInv.init
     exact rStep_inv _ _ _ (rStep_inv _ _ _ h0), by decide +kernel⟩
 
-/-! ### Old: the unrepaired tree (documentation of D15 / D29, not evidence: /repo is repaired, no driver op
-runs the `…Old` definitions and the harness sends nothing to them) -/
-
-/-- D15: on the unrepaired tree a read-out with nothing integrated fails. -/
-theorem Old_readOut_fails_when_empty (g : Geom) :
-    ∃ o, (runOld g ({} : St Rat) [.readOut]).2 = [o] ∧ (match o with | .failed => True | _ => False) :=
-  ⟨.failed, rfl, trivial⟩
-
-/-- D29: on the unrepaired tree a detector of 1 pixel with subsampling 2 (one axis) returns a
-2-pixel image. -/
-theorem Old_integrate_ignores_subsampling :
-    images (runOld ({ dims := [1], s := 2 } : Geom) ({} : St Rat) [.integrate [1, 2] 1 1, .readOut]).2
-      = [[1, 2]] ∧
-    images (run ({ dims := [1], s := 2 } : Geom) ({} : St Rat) [.integrate [1, 2] 1 1, .readOut]).2
-      = [[3]] := by
-  constructor <;> decide +kernel
-
 /-! ### non-vacuity: a concrete history -/
 
 example :
-    images (run ({ dims := [1, 2], s := 2 } : Geom) ({} : St Rat)
+    images (run (Geom.uniform [1, 2] 2) ({} : St Rat)
       [.readOut, .integrate [1, 2, 3, 4, 5, 6, 7, 8] (1/2) 3, .integrate [1, 1, 1, 1, 1, 1, 1, 1] 2 1,
        .readOut, .readOut]).2 = [[0, 0], [29, 41], [0, 0]] := by decide +kernel
 
+/-- one factor per axis: a 1×2 detector with factors (2, 3) — input 2×6, slowest axis first — over two integrations -/
+example :
+    images (run ({ dims := [1, 2], ss := [2, 3] } : Geom) ({} : St Rat)
+      [.integrate [1, 2, 3, 4, 5, 6, 7, 8, 9, 10, 11, 12] 1 1, .integrate [1, 1, 1, 1, 1, 1, 1, 1, 1, 1, 1, 1] (1/2) 2,
+       .readOut, .readOut]).2 = [[36, 54], [0, 0]] ∧
+    WellSized ({ dims := [1, 2], ss := [2, 3] } : Geom)
+      ([.integrate [1, 2, 3, 4, 5, 6, 7, 8, 9, 10, 11, 12] 1 1, .readOut] : List (Op Rat)) := by
+  constructor <;> decide +kernel
+
 /-- `allOff` is what the driver builds for `new noisy <s> <dims> 0 -`, and the flag is `true` on it -/
-example : (allOff ({ dims := [2], s := 1 } : Geom) : PSt Rat).flat = [1, 1] ∧
-    (allOff ({ dims := [2], s := 1 } : Geom) : PSt Rat).dark = [0, 0] ∧
-    pReads ({ dims := [2], s := 1 } : Geom) (allOff ({ dims := [2], s := 1 } : Geom) : PSt Rat)
+example : (allOff (Geom.uniform [2] 1) : PSt Rat).flat = [1, 1] ∧
+    (allOff (Geom.uniform [2] 1) : PSt Rat).dark = [0, 0] ∧
+    pReads (Geom.uniform [2] 1) (allOff (Geom.uniform [2] 1) : PSt Rat)
       [.setFlat [1, 1], .integrate [1, 2] 1 1, .setPhoton false, .readOut] = [(true, .image [1, 2])] := by
   refine ⟨by decide +kernel, by decide +kernel, by decide +kernel⟩
 
